@@ -249,7 +249,7 @@ def step (d : DS) (line : String) : DS × String :=
     | "reopen" => (d, "ok")
     | "obs" => (d, observe d ++ " pool=" ++ poolStr d.s)
     | "ledger" => (d, ledgerObs d)
-    | "verify" | "lcheck" | "cmpcopy" | "replica" | "snap" | "crashcheck" | "selrace" => (d, "-")
+    | "verify" | "lcheck" | "cmpcopy" | "replica" | "snap" | "crashcheck" | "selrace" | "kvengine" => (d, "-")
     | _ => (d, "bad-op")
 
 def run : IO Unit := loop step {}
